@@ -10,8 +10,8 @@ PROPS = {
         title="FFT64 negacyclic product is exact within the documented precision budget",
         module="SpqProofs.Properties.C01",
         extra_modules=["SpqProofs.Properties.Closed", "SpqProofs.Properties.C01Err", "SpqProofs.Properties.ErrWitness"],
-        streams=dict(quick=[("md_model", "plain"), ("md_prod", "plain"), ("md_prog", "plain"), ("md_vmp", "plain"), ("ff_tables", "plain")],
-                     thorough=[("md_model", "plain"), ("md_prod", "plain"), ("md_prog", "plain"), ("md_vmp", "plain"), ("ff_tables", "plain")]),
+        streams=dict(quick=[("md_model", "plain"), ("md_prod", "plain"), ("md_prog", "plain"), ("md_vmp", "plain"), ("ff_tables", "plain"), ("huge_span", "plain")],
+                     thorough=[("md_model", "plain"), ("md_prod", "plain"), ("md_prog", "plain"), ("md_vmp", "plain"), ("ff_tables", "plain"), ("huge_span", "plain")]),
         proved="exact-arithmetic part (product_exact_arith, rows_zero) on the module-level model instantiated with a commutative ring: "
                "eval_nmul (evaluation at any z with z^N = -1 is multiplicative for the negacyclic coefficient formula, every N, every commutative ring); "
                "reim_eval (N = 2m real coefficients at z with z^m = i = the m complex numbers a_k + i a_{k+m}); "
@@ -131,7 +131,7 @@ PROPS = {
         variants={"plain": None, "asan": None},
         extra_modules=["SpqProofs.Properties.SrcElem"],
         gen=["csrc"],   # tools/c2lean.py: spqlios/coeffs/coeffs_arithmetic.c -> lean/Gen/CSrc.lean (clang JSON AST -> Spq.CIR terms)
-        streams=dict(quick=[("vz_box", "plain"), ("cs_elem", "plain")], thorough=[("vz_box", "plain"), ("cs_elem", "plain"), ("cs_elem", "asan")]),
+        streams=dict(quick=[("vz_box", "plain"), ("cs_elem", "plain"), ("huge_span", "plain")], thorough=[("vz_box", "plain"), ("cs_elem", "plain"), ("cs_elem", "asan"), ("huge_span", "plain")]),
         proved="value + frame + bounds-flag theorems for zero/copy/negate/add/sub/rotate/automorphism and the big wrappers, for all nn, limb counts incl. 0, strides >= nn, offsets, heap contents, aliased or disjoint sources; int64 zero-extension corollaries SOURCE TIE (Properties/SrcElem.lean): the C source of znx_add/sub/negate/copy/zero_i64_ref, translated on every run by tools/c2lean.py into a deep-embedded term, is proved equal to the model function for every nn and any aliasing, with no out-of-bounds access.",
         not_proved="AVX lane chunking is modelled as the same per-limb function (tied by the correspondence on the avx variants and the generic/AVX dispatch masks)",
         level_text="Lean 4 theorems over the heap model of vec_znx: value, frame and bounds for all sizes (incl. 0), strides, dimensions and contents; model tied to /repo by bit-exact whole-arena differential runs (canary padding, all size orderings, both module types and dispatch masks)",
@@ -157,8 +157,8 @@ PROPS = {
         module="SpqProofs.Properties.C10",
         variants={"plain": None},
         gen=["q120"],   # tools/gen_q120.py: lean/Gen/Q120Consts.lean + lean/Gen/ProdPrecomp.lean
-        streams=dict(quick=[("q1_prod", "plain"), ("q1_conv", "plain"), ("cv_q120old", "plain")],
-                     thorough=[("q1_prod", "plain"), ("q1_conv", "plain"), ("cv_q120old", "plain")]),
+        streams=dict(quick=[("q1_prod", "plain"), ("q1_conv", "plain"), ("cv_q120old", "plain"), ("huge_span", "plain")],
+                     thorough=[("q1_prod", "plain"), ("q1_conv", "plain"), ("cv_q120old", "plain"), ("huge_span", "plain")]),
         proved="for the constants extracted from the code this run (primes, CRT constants, MAX_ELL, live product precomputations): "
                "every q120 product kernel (a*a, b*b, b*c, x2 one/two columns; reference and AVX2) returns lanes congruent to the exact dot "
                "product modulo each prime for all ell <= MAX_ELL and all operands of the layout (b: any 64-bit lane), with no 64-bit wrap and no "
@@ -177,8 +177,8 @@ PROPS = {
         extra_modules=["SpqProofs.Properties.ModHeap"],
         gen=["tmpbytes"],
         variants={"plain": None, "asan": None},
-        streams=dict(quick=[("mem_pairs", "asan"), ("vz_box", "asan"), ("vz_norm", "asan"), ("kz_probe", "asan"), ("kz_norm", "asan"), ("ca_prog", "asan"), ("md_prod", "asan"), ("md_vmp", "asan"), ("md_ntt", "asan"), ("cv_misc", "asan"), ("cv_rnx", "asan"), ("cv_cplxvec", "asan"), ("ca_small", "asan"), ("big_align", "asan"), ("cv_misc", "plain"), ("mh_arena", "plain"), ("mh_arena", "asan")],
-                     thorough=[("mem_pairs", "asan"), ("vz_box", "asan"), ("vz_norm", "asan"), ("kz_probe", "asan"), ("kz_norm", "asan"), ("ca_prog", "asan"), ("md_prod", "asan"), ("md_vmp", "asan"), ("md_ntt", "asan"), ("cv_misc", "asan"), ("cv_rnx", "asan"), ("cv_cplxvec", "asan"), ("ca_small", "asan"), ("big_align", "asan"), ("cv_misc", "plain"), ("mh_arena", "plain"), ("mh_arena", "asan")]),
+        streams=dict(quick=[("mem_pairs", "asan"), ("vz_box", "asan"), ("vz_norm", "asan"), ("kz_probe", "asan"), ("kz_norm", "asan"), ("ca_prog", "asan"), ("md_prod", "asan"), ("md_vmp", "asan"), ("md_ntt", "asan"), ("cv_misc", "asan"), ("cv_rnx", "asan"), ("cv_cplxvec", "asan"), ("ca_small", "asan"), ("big_align", "asan"), ("cv_misc", "plain"), ("mh_arena", "plain"), ("mh_arena", "asan"), ("small_stack", "plain"), ("huge_span", "plain"), ("ca_bigdim", "asan")],
+                     thorough=[("mem_pairs", "asan"), ("vz_box", "asan"), ("vz_norm", "asan"), ("kz_probe", "asan"), ("kz_norm", "asan"), ("ca_prog", "asan"), ("md_prod", "asan"), ("md_vmp", "asan"), ("md_ntt", "asan"), ("cv_misc", "asan"), ("cv_rnx", "asan"), ("cv_cplxvec", "asan"), ("ca_small", "asan"), ("big_align", "asan"), ("cv_misc", "plain"), ("mh_arena", "plain"), ("mh_arena", "asan"), ("small_stack", "plain"), ("huge_span", "plain"), ("ca_bigdim", "asan")]),
         proved="index logic of every limb-vector operation: declared extents inside the heap imply no out-of-bounds access of the model (all shapes incl. zero limb counts), frame theorems (C18) bound the writes, scratch of the normalisation = one carry limb = *_tmp_bytes; Gen obligation: size formulas = live *_tmp_bytes / bytes_of_* values over a shape box (nn in {2,4,8,16,64,4096,65536}, sizes in {0,1,2,5}) MODULE LAYER (Properties/ModHeap.lean, heap-level model Spq.ModuleHeap tied bit-exactly by stream mh_arena): for vec_znx_dft, vec_znx_idft (in place or not), idft_tmp_a, svp_prepare, svp_apply_dft, znx_small_single_product, vmp_prepare_contiguous, vmp_apply_dft_to_dft and vmp_apply_dft, for all nn, limb counts incl. 0, strides and matrix shapes: when the caller provides the regions of the C contract and exactly *_tmp_bytes(shape) bytes of scratch (formulas of Spq.TmpBytes = live values, Gen obligation), no access leaves the declared regions (ok flag kept), incl. the tmp_space split of vmp_apply_dft and the accumulator/extraction buffers of apply_dft_to_dft.",
         not_proved="runtime residue observed by ASan/UBSan-bounds/LSan on exactly-sized heap buffers, not proved: accesses inside float kernels and asm leaves, alloc/free pairing of new_*/delete_*, alignment, allocator overflow abort; inside the float kernels (conversion, fft, products) accesses are over-approximated to the whole limb/block they are given",
         level_text="Lean 4 theorems for the index logic (bounds flag, frame, scratch size) + kernel-decided size-formula obligation on live values; the memory-safety residue is tied by sanitizer builds on exact-size buffers (partial)",
@@ -215,8 +215,8 @@ PROPS = {
         module="SpqProofs.Properties.C15",
         extra_modules=["SpqProofs.Properties.ModHeap"],
         gen=["globals", "caches"],
-        streams=dict(quick=[("ca_prog", "plain"), ("ca_irrelevant", "plain"), ("vz_box", "plain"), ("md_prod", "plain"), ("md_vmp", "plain"), ("ca_small", "plain"), ("big_align", "plain"), ("cv_misc", "plain")],
-                     thorough=[("ca_prog", "plain"), ("ca_irrelevant", "plain"), ("vz_box", "plain"), ("vz_norm", "plain"), ("md_prod", "plain"), ("md_vmp", "plain"), ("ca_small", "plain"), ("big_align", "plain"), ("cv_misc", "plain")]),
+        streams=dict(quick=[("ca_prog", "plain"), ("ca_irrelevant", "plain"), ("vz_box", "plain"), ("md_prod", "plain"), ("md_vmp", "plain"), ("ca_small", "plain"), ("big_align", "plain"), ("cv_misc", "plain"), ("env_state", "plain"), ("ca_bigdim", "plain")],
+                     thorough=[("ca_prog", "plain"), ("ca_irrelevant", "plain"), ("vz_box", "plain"), ("vz_norm", "plain"), ("md_prod", "plain"), ("md_vmp", "plain"), ("ca_small", "plain"), ("big_align", "plain"), ("cv_misc", "plain"), ("env_state", "plain"), ("ca_bigdim", "plain")]),
         proved="history independence of every function with function-local static state (structure extracted from the C source each run): after any call sequence the table in use was built with the call's own values of every table-relevant constructor argument; Gen obligations: every constructor argument is in the cache key, every function referencing mutable static storage is a modelled cache; purity shown for add (add_pure) and, through the C08/C13 spec theorems, for the other limb-vector operations (outputs depend on source cells only) Module layer: the ModHeap theorems (obligations of this check too) give the result region of every FFT64 entry point as a function of the source regions only, independent of the previous content of output and scratch. extraction_nonvacuous: the extraction found at least 15 caches and 15 functions with static state.",
         not_proved="which constructor arguments are table-irrelevant is declared by hand (4 entries) and validated by byte-comparing tables (stream ca_irrelevant); buffer alignment independence is checked by the streams only (all loads are unaligned loads)",
         level_text="Lean 4 invariant proof over the cache state machine whose per-function structure is re-extracted from the C source on every run, plus kernel-decided obligations; rebuild events and outputs compared with the real code over random call programs",
